@@ -776,6 +776,30 @@ func aliasGen(g *G, tier string) []M {
 			ops = append(ops, M{"op": "alias", "what": "copyNL", "a": a})
 		case 6, 7:
 			o := M{"op": "alias", "what": g.Pick([]string{"union", "intersect"}), "a": a, "b": b}
+			if g.Chance(0.25) {
+				// plain nodes: text and dates only, no list or map attribute (what a call that saves a
+				// copy for "simple" nodes would pick out)
+				for _, l := range []M{a, b} {
+					for _, n := range asList(l["nodes"]) {
+						at, _ := n.(M)["a"].(M)
+						if at == nil {
+							at = M{}
+							n.(M)["a"] = at
+						}
+						for _, f := range NodeAttrs {
+							switch f.Kind {
+							case "str":
+							case "date":
+								if g.Chance(0.7) {
+									at[f.GoName] = []any{float64(1700000000 + g.Int(1000)), 0.0}
+								}
+							default:
+								delete(at, f.GoName)
+							}
+						}
+					}
+				}
+			}
 			if g.Chance(0.3) {
 				o["share"] = g.Pick([]string{"frag", "frag", "self"})
 				// same values as well as same objects: the argument's nodes that the receiver also has
